@@ -378,6 +378,12 @@ func checkC01(c *Ctx) {
 	}
 
 	c.c01RefusedGainsNothing(m)
+	// "carrying that message's sender, recipients, subject and size": what is handed to Deliver
+	// are the bytes this transaction read, and they stay this transaction's until Deliver is
+	// done with them (decided by C02's byte-path rule: no lossy step, no buffer handed back to a
+	// pool while the bytes are still in use)
+	nIn := c.borrow(checkC02, "C02/IN/dot-decode", "C01/CONTENT/own-bytes", "the content argument of Deliver is the DATA block this session read, through pass-through operations only, and does not alias storage that is released before Deliver returns")
+	r.Floor("C01/CONTENT/own-bytes", "borrowed obligations", nIn, 1)
 	// Deliver itself: a failure on the way to the store is not reported as a delivery
 	r.Rule("C01/DELIVER/errors", "in pkg/message no return reports success on the branch where a call's error is known non-nil, and none reports a failure built from an error known nil")
 	r.Floor("C01/DELIVER/errors", "returns examined", c.errContradictions("C01/DELIVER/errors", pkgFuncs(p, "pkg/message"), "Deliver returns nil although the message was not handed to the store: the SMTP client is told 250 and the mail is gone"), 5)
@@ -1121,52 +1127,7 @@ func (c *Ctx) c01RefusedGainsNothing(m *smtpModel) {
 			}
 			n++
 			cons := siteCons(p, in, ord, "append")
-			isRefusal := func(x ssa.Instruction) bool {
-				if !m.isSend(x) {
-					return false
-				}
-				pre, okp := m.sendPrefix(x)
-				cl := replyClass(pre, okp)
-				return cl == '4' || cl == '5'
-			}
-			stops := func(x ssa.Instruction) bool {
-				if m.isSend(x) && !isRefusal(x) {
-					return true
-				}
-				if m.isReset(x) {
-					return true
-				}
-				if cl, isCall := x.(*ssa.Call); isCall {
-					if g := eng.StaticCallee(cl.Common()); g != nil && (g == m.readLine || g == m.dataRead) {
-						return true
-					}
-				}
-				return false
-			}
-			var bad ssa.Instruction
-			seen := map[ssa.Instruction]bool{}
-			var from func(at ssa.Instruction, depth int)
-			from = func(at ssa.Instruction, depth int) {
-				if bad != nil || seen[at] || depth > 3 {
-					return
-				}
-				seen[at] = true
-				s1 := &eng.Search{Target: isRefusal, Avoid: stops, Deep: true, DeepHit: true}
-				if hit := s1.After(at); hit != nil {
-					bad = hit
-					return
-				}
-				s2 := &eng.Search{Target: func(x ssa.Instruction) bool { _, isRet := x.(*ssa.Return); return isRet }, Avoid: stops, Deep: true}
-				if s2.After(at) == nil {
-					return
-				}
-				for _, cs := range p.StaticCallSites(at.Parent()) {
-					if _, isCall := cs.Instr.(*ssa.Call); isCall {
-						from(cs.Instr.(ssa.Instruction), depth+1)
-					}
-				}
-			}
-			from(st, 0)
+			bad := c.firstReplyRefusal(m, st)
 			if bad != nil {
 				r.Bad("C01/RCPT/refused-gains-nothing", cons, p.InstrPos(st), "the recipient is appended to the envelope here and the command can still be answered with the refusal at %s: the client is told the recipient was not accepted, yet the message data that follows is stored for it", p.InstrPos(bad))
 			} else {
@@ -1175,4 +1136,59 @@ func (c *Ctx) c01RefusedGainsNothing(m *smtpModel) {
 		})
 	}
 	r.Floor("C01/RCPT/refused-gains-nothing", "append(recipients) sites", n, 1)
+}
+
+// firstReplyRefusal follows the code after `at` to the first reply the client sees for the
+// command: a path ends at the first non-refusal reply, at an envelope reset or at the next input
+// read; a path that leaves the function without a reply goes on behind each of its call sites.
+// It returns a 4xx/5xx reply that can be the first one, or nil.
+func (c *Ctx) firstReplyRefusal(m *smtpModel, at ssa.Instruction) ssa.Instruction {
+	p := c.P
+	isRefusal := func(x ssa.Instruction) bool {
+		if !m.isSend(x) {
+			return false
+		}
+		pre, okp := m.sendPrefix(x)
+		cl := replyClass(pre, okp)
+		return cl == '4' || cl == '5'
+	}
+	stops := func(x ssa.Instruction) bool {
+		if m.isSend(x) && !isRefusal(x) {
+			return true
+		}
+		if m.isReset(x) {
+			return true
+		}
+		if cl, isCall := x.(*ssa.Call); isCall {
+			if g := eng.StaticCallee(cl.Common()); g != nil && (g == m.readLine || g == m.dataRead) {
+				return true
+			}
+		}
+		return false
+	}
+	var bad ssa.Instruction
+	seen := map[ssa.Instruction]bool{}
+	var from func(at ssa.Instruction, depth int)
+	from = func(at ssa.Instruction, depth int) {
+		if bad != nil || seen[at] || depth > 3 {
+			return
+		}
+		seen[at] = true
+		s1 := &eng.Search{Target: isRefusal, Avoid: stops, Deep: true, DeepHit: true}
+		if hit := s1.After(at); hit != nil {
+			bad = hit
+			return
+		}
+		s2 := &eng.Search{Target: func(x ssa.Instruction) bool { _, isRet := x.(*ssa.Return); return isRet }, Avoid: stops, Deep: true}
+		if s2.After(at) == nil {
+			return
+		}
+		for _, cs := range p.StaticCallSites(at.Parent()) {
+			if _, isCall := cs.Instr.(*ssa.Call); isCall {
+				from(cs.Instr.(ssa.Instruction), depth+1)
+			}
+		}
+	}
+	from(at, 0)
+	return bad
 }
